@@ -494,6 +494,228 @@ def _run_yamljson(case):
             ("" if roundtrip else ":not-the-dumped-object(unasserted)"), "key": "yj:" + case["name"]}
 
 
+# ------------------------------------------------------------------------------------------ YAML spellings
+
+_FINE = {"NT": 31, "DT": 100, "T_MIN": 0}
+
+
+def yaml_spellings():
+    """YAML spellings that use anchors, aliases and merge keys, each with the expanded object (= its JSON spelling)
+    written out by construction, without any YAML parser: style {block, flow} x merge source {single, list of two,
+    nested} x override of a merged key {none, after the merge key, before it}, plus alias-only documents.
+    Merge-key semantics (YAML 1.1 type `merge`): explicit keys win over merged ones wherever they stand, earlier
+    mappings of a merge list win over later ones.  Plain duplicate keys are not produced (not asserted either way)."""
+    out = []
+    for style in ("block", "flow"):
+        for source in ("single", "list", "nested"):
+            for override in ("none", "after", "before"):
+                fine = dict(_FINE)
+                if source == "nested":
+                    coarse_txt = [("<<", "*fine"), ("NT", 11), ("DELTA_P", 5)]
+                    coarse = {"NT": 11, "DT": 100, "T_MIN": 0, "DELTA_P": 5}
+                else:
+                    coarse_txt = [("NT", 11), ("DT", 300), ("DELTA_P", 5)]
+                    coarse = {"NT": 11, "DT": 300, "DELTA_P": 5}
+                if source == "single":
+                    mkey, merged = "*fine", dict(fine)
+                elif source == "list":
+                    mkey, merged = "[*fine, *coarse]", {**coarse, **fine}
+                else:
+                    mkey, merged = "*coarse", dict(coarse)
+                settings_txt = [("<<", mkey), ("NTV", 81)]
+                settings = {**merged, "NTV": 81}
+                if override == "after":
+                    settings_txt.insert(1, ("NT", 81))
+                    settings["NT"] = 81
+                elif override == "before":
+                    settings_txt.insert(0, ("NT", 81))
+                    settings["NT"] = 81
+                fine_txt = list(fine.items())
+                if style == "flow":
+                    def fl(pairs):
+                        return "{" + ", ".join(f"{k}: {v}" for k, v in pairs) + "}"
+                    text = ("qha:\n  input: input01\n  presets:\n"
+                            f"    fine: &fine {fl(fine_txt)}\n    coarse: &coarse {fl(coarse_txt)}\n"
+                            f"  settings: {fl(settings_txt)}\nelast:\n  input: elast.dat\n")
+                else:
+                    def bl(pairs, ind):
+                        return "".join(" " * ind + f"{k}: {v}\n" for k, v in pairs)
+                    text = ("qha:\n  input: input01\n  presets:\n    fine: &fine\n" + bl(fine_txt, 6) +
+                            "    coarse: &coarse\n" + bl(coarse_txt, 6) + "  settings:\n" + bl(settings_txt, 4) +
+                            "elast:\n  input: elast.dat\n")
+                obj = {"qha": {"input": "input01", "presets": {"fine": fine, "coarse": coarse}, "settings": settings},
+                       "elast": {"input": "elast.dat"}}
+                out.append({"name": f"merge:{style}:{source}:override-{override}", "yaml": text, "obj": obj, "valid": True})
+    out.append({"name": "alias:scalar", "valid": True,
+                "yaml": "qha:\n  input: &f input01\n  settings: {NT: &n 31, NTV: *n, DT: 100}\nelast:\n  input: *f\n",
+                "obj": {"qha": {"input": "input01", "settings": {"NT": 31, "NTV": 31, "DT": 100}}, "elast": {"input": "input01"}}})
+    out.append({"name": "alias:list+mapping", "valid": True,
+                "yaml": "output:\n  pressure_base: &vars [cij, vs, vp]\n  volume_base: *vars\n"
+                        "qha:\n  input: input01\n  settings: &s\n    NT: 31\n    DT: 100\n  same_again: *s\nelast: {input: elast.dat}\n",
+                "obj": {"output": {"pressure_base": ["cij", "vs", "vp"], "volume_base": ["cij", "vs", "vp"]},
+                        "qha": {"input": "input01", "settings": {"NT": 31, "DT": 100}, "same_again": {"NT": 31, "DT": 100}},
+                        "elast": {"input": "elast.dat"}}})
+    out.append({"name": "merge:two-levels", "valid": True,
+                "yaml": "qha:\n  input: input01\n  presets:\n    sym: &sym {system: cubic, ignore_rank: false}\n"
+                        "    mg: &mg {interpolator: spline, order: 3}\n  settings: {NT: 31}\n"
+                        "elast:\n  input: elast.dat\n  settings:\n    symmetry:\n      <<: *sym\n      system: hexagonal\n"
+                        "    mode_gamma:\n      order: 4\n      <<: *mg\n",
+                "obj": {"qha": {"input": "input01", "presets": {"sym": {"system": "cubic", "ignore_rank": False},
+                                                                 "mg": {"interpolator": "spline", "order": 3}},
+                                "settings": {"NT": 31}},
+                        "elast": {"input": "elast.dat", "settings": {"symmetry": {"system": "hexagonal", "ignore_rank": False},
+                                                                     "mode_gamma": {"interpolator": "spline", "order": 4}}}}})
+    return out
+
+
+def _run_yamlspell(case):
+    """A hand-spelled YAML document (anchors / aliases / merge keys) must load through read_config to the same
+    dictionary as its expanded JSON spelling."""
+    from cij.io.config import read_config
+    obj, text = case["obj"], case["yaml"]
+    viol = []
+    tmp = tempfile.mkdtemp(prefix="c16-ys-", dir="/dev/shm")
+    loaded = {}
+    try:
+        for suffix, body in ((".json", json.dumps(obj)), (".yaml", text), (".yml", text)):
+            fn = os.path.join(tmp, "settings" + suffix)
+            with open(fn, "w") as fp:
+                fp.write(body)
+            for validate in ([False, True] if case.get("valid") else [False]):
+                try:
+                    loaded[(suffix, validate)] = ("ok", read_config(fn, validate=validate))
+                except Exception as e:
+                    loaded[(suffix, validate)] = ("raise", type(e).__name__)
+                    viol.append(V(f"c16:yamlspell:raises:{suffix}:{type(e).__name__}:{case['name']}",
+                                  f"{case['name']}: read_config(settings{suffix}, validate={validate}) raised {type(e).__name__}: "
+                                  f"{' '.join(str(e).split())[:200]}; the document is\n{text}"))
+    finally:
+        shutil.rmtree(tmp, ignore_errors=True)
+    ref = loaded.get((".json", False))
+    for k, (st, val) in loaded.items():
+        if st != "ok" or not ref or ref[0] != "ok":
+            continue
+        if not R.same(val, ref[1]):
+            viol.append(V(f"c16:yamlspell:differ:{k[0]}-vs-.json:{case['name']}",
+                          f"{case['name']}: settings{k[0]} (validate={k[1]}) loads as {_js(val)} but the expanded settings.json as "
+                          f"{_js(ref[1])}; the document is\n{text}"))
+    return {"viol": viol, "outcome": "yamlspell:" + ("identical" if not viol else "differ"), "key": "ys:" + case["name"]}
+
+
+# ------------------------------------------------------------------------------------------ working directory
+
+_DECOY_DEFAULTS = """qha:
+  input: decoy_input
+  settings: {T_MIN: 300, DT: 7, DT_SAMPLE: 7, NT: 99, P_MIN: 50, DELTA_P: 9, DELTA_P_SAMPLE: 9, order: 5, static_only: true, volume_ratio: 3.0, zz_decoy: 1}
+elast:
+  input: decoy.dat
+  settings:
+    mode_gamma: {interpolator: akima, order: 9}
+    symmetry: {system: cubic, ignore_residuals: true, ignore_rank: true, drop_atol: 5.0, residual_atol: 5.0}
+output: {pressure_base: [decoy], volume_base: [decoy], zz_decoy: [x]}
+zz_decoy: {nested: 1}
+"""
+_DECOY_CONTENT = {"defaults": _DECOY_DEFAULTS, "defaults-empty": "{}\n", "schema-permissive": "{}\n", "schema-rejecting": '{"not": {}}\n'}
+_DEFAULT_PLACES = ["default/settings.yaml", "cij/data/default/settings.yaml", "data/default/settings.yaml", "settings.yaml"]
+_SCHEMA_PLACES = ["schema/config.schema.json", "cij/data/schema/config.schema.json", "data/schema/config.schema.json",
+                  "config.schema.json"]
+
+
+def cwd_layouts():
+    """name -> list of (relative path, content kind): what the working directory holds while cij runs."""
+    L = {"empty": []}
+    for pl in _DEFAULT_PLACES:
+        L[f"defaults@{pl}"] = [(pl, "defaults")]
+    L["defaults-empty@default/settings.yaml"] = [("default/settings.yaml", "defaults-empty")]
+    for pl in _SCHEMA_PLACES:
+        L[f"schema-permissive@{pl}"] = [(pl, "schema-permissive")]
+        L[f"schema-rejecting@{pl}"] = [(pl, "schema-rejecting")]
+    L["all-decoys-permissive"] = [(pl, "defaults") for pl in _DEFAULT_PLACES] + [(pl, "schema-permissive") for pl in _SCHEMA_PLACES]
+    L["all-decoys-rejecting"] = [(pl, "defaults") for pl in _DEFAULT_PLACES] + [(pl, "schema-rejecting") for pl in _SCHEMA_PLACES]
+    return L
+
+
+def _run_cwd(case):
+    """Everything again from inside a working directory that holds look-alike files: the effective configuration
+    must still take its unspecified leaves from the PACKAGED defaults and validation must use the PACKAGED schema,
+    i.e. all results are those of the reference, as in an empty directory."""
+    from cij.io.config import apply_default_config, validate_config, read_config
+    layout = case["layout"]
+    files = cwd_layouts().get(layout)
+    if files is None:
+        raise HarnessError(f"unknown layout {layout}")
+    D0 = _defaults()
+    viol = _Viol()
+    calls = 0
+    old = os.getcwd()
+    tmp = tempfile.mkdtemp(prefix="c16-cwd-", dir="/dev/shm")
+    try:
+        for rel, kind in files:
+            fn = os.path.join(tmp, rel)
+            os.makedirs(os.path.dirname(fn), exist_ok=True)
+            with open(fn, "w") as fp:
+                fp.write(_DECOY_CONTENT[kind])
+        users = dict(_h_objects())
+        users.pop("bad"), users.pop("d1")
+        for rel in R.SHIPPED_REL:
+            users["file:" + rel] = R.clone(_shipped(rel))
+        good = R.clone(_shipped("examples/akimotoite/settings.yaml"))
+        bad = {"qha": {"settings": {"NT": 0}}, "elast": {}}
+        with open(os.path.join(tmp, "user_good.yaml"), "w") as fp:
+            import yaml
+            yaml.safe_dump(good, fp)
+        with open(os.path.join(tmp, "user_bad.json"), "w") as fp:
+            json.dump(bad, fp)
+        os.chdir(tmp)
+        # effective configuration
+        for name, u0 in users.items():
+            u = R.clone(u0)
+            calls += 1
+            try:
+                r = apply_default_config(u)
+            except Exception as e:
+                viol.add(f"c16:cwd:{layout}:apply-raises:{type(e).__name__}", f"cwd holds {files}: apply_default_config({name}) raised "
+                         f"{type(e).__name__}: {e}", len(name))
+                continue
+            if not R.same(r, R.ref_merge(u0, D0)):
+                diffs, _ = R.compare(r, u0, D0)
+                viol.add(f"c16:cwd:{layout}:apply-differs", f"cwd holds {[f for f, _ in files]}: apply_default_config({name}) = {_js(r)}; "
+                         f"first difference from the packaged defaults: {diffs[:1]}", len(name))
+        # validation: every asserted perturbation of the packaged defaults + the shipped files
+        base = _shipped(R.DEFAULT_REL)
+        todo = [(p, R.apply_perturbation(base, p)) for p in R.perturbations() if p["expect"] != "unasserted"]
+        todo += [({"id": rel, "expect": "accept", "cls": "shipped"}, R.clone(_shipped(rel))) for rel in R.SHIPPED_REL]
+        for pert, cfg in todo:
+            calls += 1
+            verdict, why = _verdict(validate_config, cfg)
+            if pert["expect"] == "reject" and verdict != "rejected":
+                viol.add(f"c16:cwd:{layout}:validate-{verdict.split(':')[0]}:{pert['cls']}",
+                         f"cwd holds {[f for f, _ in files]}: {pert['id']}: {verdict} {why}, must be rejected", len(pert["id"]))
+            elif pert["expect"] == "accept" and verdict != "accepted":
+                viol.add(f"c16:cwd:{layout}:validate-{verdict.split(':')[0]}:{pert['cls']}",
+                         f"cwd holds {[f for f, _ in files]}: {pert['id']}: {verdict} {why}, must be accepted", len(pert["id"]))
+        # files read by relative and absolute path
+        for fn, exp in (("user_good.yaml", "accepted"), (os.path.join(tmp, "user_good.yaml"), "accepted"),
+                        ("user_bad.json", "rejected"), (os.path.join(tmp, "user_bad.json"), "rejected")):
+            calls += 1
+            verdict, why = _verdict(read_config, fn)
+            if verdict != exp:
+                viol.add(f"c16:cwd:{layout}:read-{verdict.split(':')[0]}", f"cwd holds {[f for f, _ in files]}: read_config({os.path.basename(fn)}) "
+                         f"{verdict} {why}, expected {exp}", 0)
+        try:
+            got = read_config("user_good.yaml")
+            if not R.same(got, good):
+                viol.add(f"c16:cwd:{layout}:read-differs", f"read_config(user_good.yaml) = {_js(got)}", 0)
+        except Exception:
+            pass
+    finally:
+        os.chdir(old)
+        shutil.rmtree(tmp, ignore_errors=True)
+    v = viol.out()
+    return {"viol": v, "nontrivial": bool(files), "outcome": "cwd:" + ("ok" if not v else "violation"), "key": "cwd:" + layout,
+            "calls": calls}
+
+
 # ------------------------------------------------------------------------------------------ histories
 
 H_OPS = ["apply:u0", "apply:u1", "apply:uN", "apply:uF", "update:u1,d1", "update:uF,d1", "validate:u1", "validate:bad",
@@ -633,6 +855,10 @@ def run_case(case):
         return _run_apply(case)
     if kind == "validate":
         return _run_validate(case)
+    if kind == "yamlspell":
+        return _run_yamlspell(case)
+    if kind == "cwd":
+        return _run_cwd(case)
     if kind == "yamljson":
         return _run_yamljson(case)
     if kind == "history":
@@ -857,6 +1083,13 @@ def explore(ctx):
         "set; plus one user entry at a time at every path of the packaged defaults and of the shipped files, set to "
         "null / 0 / 0.0 / false / '' / [] / scalars / lists / leafless and non-empty dictionaries, alone and on top of "
         "each shipped file. validate: 4 shipped files x every documented field x every perturbation. "
+        "yaml-anchors-merge-keys: style {block,flow} x merge source {single, list, nested} x override of a merged "
+        "key {none, after, before} + alias-only and two-level documents, each against its expanded JSON spelling. "
+        "working-directory: the effective configuration of 8 users, every asserted validation perturbation and file reads by "
+        "relative/absolute path, from inside a cwd holding decoy files (other defaults at default/settings.yaml, "
+        "cij/data/default/settings.yaml, data/default/settings.yaml, settings.yaml; a permissive / an all-rejecting schema "
+        "at schema/config.schema.json, cij/data/schema/..., data/schema/..., config.schema.json; all at once; none): "
+        "results must be those of the reference (packaged defaults, packaged schema). "
         "yamljson: shipped/effective configurations and one probe per scalar kind and YAML-sensitive string. history: "
         "all sequences of length 1..3 over 11 operations on shared objects. A case is non-trivial when: merge - the "
         "user dict is non-empty; apply - at least one input ran; validate - the verdict is asserted by the table "
@@ -879,6 +1112,9 @@ def explore(ctx):
         "not asserted (executed, labelled 'unasserted'): unknown keys outside elast.settings / symmetry, wrong types "
         "of non-numeric non-enumerated fields, removal of single fields, sign of steps/tolerances, case variants of "
         "enumerated names, 3.0 for an integer, the unlisted settings DT_SAMPLE / static_only",
+        "YAML merge-key semantics as in the YAML 1.1 merge type (explicit keys win wherever they stand; earlier entries of "
+        "a merge list win); the expanded objects are written by construction and checked against a pristine PyYAML in a "
+        "separate interpreter by --selftest; plain duplicate keys are not asserted either way",
         "PyYAML safe_dump/safe_load and json are trusted to spell an object faithfully (checked per probe)",
         "reference defaults read with yaml.safe_load from $VERIF_REPO/cij/data/default/settings.yaml",
     ]
@@ -929,6 +1165,13 @@ def explore(ctx):
 
     ycases = yamljson_cases()
     ctx.run(MOD, "run_case", ycases, part="yamljson", transitions=4 * len(ycases))
+    scases = [dict(c, kind="yamlspell") for c in yaml_spellings()]
+    ctx.run(MOD, "run_case", scases, part="yaml-anchors-merge-keys", transitions=6 * len(scases))
+
+    wcases = [{"kind": "cwd", "layout": name} for name in cwd_layouts()]
+    res = ctx.run(MOD, "run_case", wcases, part="working-directory", states=0, transitions=0, chunksize=1)
+    ctx.states += len(wcases)
+    ctx.transitions += sum(r.get("calls", 0) for r in res)
 
     hcases = [{"kind": "history", "seq": list(s)} for s in X.sequences(H_OPS, 3, min_len=1)]
     res = ctx.run(MOD, "run_case", hcases, part="history", states=0, transitions=0)
@@ -942,7 +1185,7 @@ def explore(ctx):
         "apply_conflict_values": len(CONFLICT_VALUES),
         "validate_bases": len(R.SHIPPED_REL), "validate_fields": len(R.FIELDS), "validate_perturbations": len(perts),
         "validate_by_expectation": dict(Counter(p["expect"] for p in perts)),
-        "yamljson_objects": len(ycases), "history_ops": len(H_OPS), "history_max_len": 3, "history_sequences": len(hcases),
+        "yamljson_objects": len(ycases), "yaml_spellings": len(scases), "cwd_layouts": len(wcases), "history_ops": len(H_OPS), "history_max_len": 3, "history_sequences": len(hcases),
     }
 
 
@@ -1054,6 +1297,22 @@ def selftest():
         "integer key turned into a string")
     chk([k for k, _, _ in R.compare({"a": R.Bare()}, {"a": ex["object"]}, {})[0]] == ["user-leaf-lost"], "bare object replaced")
     chk([k for k, _, _ in R.compare({"a": 3}, {}, {"a": ex["np_int64"]})[0]] == ["default-leaf-missing"], "numpy default leaf retyped")
+    # YAML spellings: a pristine PyYAML (fresh interpreter, cij never imported) must agree with the constructed objects
+    import subprocess
+    import sys
+    sp = yaml_spellings()
+    chk(len(sp) == 21 and len({c["name"] for c in sp}) == 21, "number of YAML spellings")
+    script = ("import sys, json, yaml\ncases = json.load(sys.stdin)\nbad = [c['name'] for c in cases if yaml.safe_load(c['yaml']) != c['obj'] "
+              "or yaml.load(c['yaml'], Loader=yaml.FullLoader) != c['obj']]\nassert 'cij' not in sys.modules\nprint(json.dumps(bad))")
+    pr = subprocess.run([sys.executable, "-c", script], input=json.dumps(sp), capture_output=True, text=True, cwd="/",
+                        env={k: v for k, v in os.environ.items() if k != "PYTHONPATH"})
+    chk(pr.returncode == 0 and pr.stdout.strip() == "[]", f"pristine PyYAML disagrees with the constructed expansions: {pr.stdout} {pr.stderr[-300:]}")
+    chk(any("<<: *fine, NT: 81" in c["yaml"] for c in sp), "the flow spelling with an overridden merged key is enumerated")
+    lay = cwd_layouts()
+    chk(len(lay) == 16 and lay["empty"] == [] and len(lay["all-decoys-permissive"]) == 8, "cwd layouts")
+    import yaml as _y
+    chk(_y.safe_load(_DECOY_DEFAULTS)["qha"]["settings"]["T_MIN"] == 300 and json.loads(_DECOY_CONTENT["schema-rejecting"]) == {"not": {}},
+        "decoy contents parse")
     n_plain = 0
     for u in D2:
         ul, ue = R.flatten(u)
